@@ -40,6 +40,7 @@ func propC09() *Property {
 			{ID: "R09.4", Floor: 3, Text: "user hint: writer (addUserHintToNonce) and reader (CheckUserFromHint) hash name||nonce[:16] with SHA-256 and use output[:4] against nonce[len-4:]", Run: r09_4},
 			{ID: "R09.5", Floor: 4, Text: "nonce progression", Run: r09_5},
 			{ID: "R09.7", Floor: 2, Text: "MaxSessionOpenPayload == 1024, enforced by sessionStruct.Unmarshal and by Session.Write's piggyback test", Run: r09_7},
+			{ID: "R09.9", Floor: 5, Text: "payload carried by any session or data segment is delivered: the reader hands out the payload of every dequeued segment (shared with R01.7); the protocol allows a payload on the open session response", Run: r01_7},
 			{ID: "R09.8", Floor: 10, Text: "low-entropy tables and rotation semantics; UDP associate frame", Run: func(c *RC) { ruleLowEntropyTables(c); ruleRotation(c); ruleAssociateFrame(c) }},
 		},
 	}
